@@ -56,7 +56,8 @@ xstrlncpy(char *restrict dst, size_t dsz, const char *src, size_t ssz)
 {
 	if (UNLIKELY(!dsz)) {
 		return 0U;
-	} else if (ssz > dsz) {
+	} else if (ssz >= dsz) {
+		/* leave room for the terminator */
 		ssz = dsz - 1U;
 	}
 	memcpy(dst, src, ssz);
@@ -71,7 +72,8 @@ xstrlcpy(char *restrict dst, const char *src, size_t dsz)
 
 	if (UNLIKELY(!dsz)) {
 		return 0U;
-	} else if (ssz > dsz) {
+	} else if (ssz >= dsz) {
+		/* leave room for the terminator */
 		ssz = dsz - 1U;
 	}
 	memcpy(dst, src, ssz);
